@@ -3,6 +3,8 @@ package db
 import (
 	"errors"
 	"fmt"
+	"os"
+	"path/filepath"
 	"strconv"
 	"strings"
 
@@ -27,7 +29,40 @@ var (
 	ErrVAANotFound = errors.New("requested VAA not found in store")
 )
 
+// removeEmptyMemtables deletes zero-length memtable write-ahead files (*.mem) from the store directory.
+//
+// Badger creates such a file and then sizes it; a process killed between the two steps leaves an empty
+// file behind, which badger's recovery mistakes for a freshly created one and then refuses to open the
+// store ("while opening fid: N error: Create a new file"). An empty file holds no entries, so dropping
+// it loses nothing.
+func removeEmptyMemtables(path string) error {
+	entries, err := os.ReadDir(path)
+	if err != nil {
+		if os.IsNotExist(err) {
+			return nil
+		}
+		return err
+	}
+	for _, e := range entries {
+		if e.IsDir() || !strings.HasSuffix(e.Name(), ".mem") {
+			continue
+		}
+		info, err := e.Info()
+		if err != nil || !info.Mode().IsRegular() || info.Size() != 0 {
+			continue
+		}
+		if err := os.Remove(filepath.Join(path, e.Name())); err != nil && !os.IsNotExist(err) {
+			return err
+		}
+	}
+	return nil
+}
+
 func Open(path string) (*Database, error) {
+	if err := removeEmptyMemtables(path); err != nil {
+		return nil, fmt.Errorf("failed to clean up database directory: %w", err)
+	}
+
 	db, err := badger.Open(badger.DefaultOptions(path))
 	if err != nil {
 		return nil, fmt.Errorf("failed to open database: %w", err)
